@@ -7,7 +7,10 @@ FUNCS = ["metrics_util::layers::prefix::Prefix::{prefix_key,prefix_key_name,desc
 B = "names, prefixes, label parts: 1-byte strings with symbolic content; <=1 label; unit symbolic among 4; operation symbolic among the 3 describe or the 3 register calls"
 HARNESSES = [
     kani.H("c13_prefix_describe", "prefix layer, describe_*: inner recorder receives '<prefix>.<name>' once, unit and description unchanged", B, 600, functions=FUNCS),
-    kani.H("c13_prefix_register", "prefix layer, register_*: name prefixed, labels and metadata unchanged, handle updates reach the inner handle", B, 900, functions=FUNCS),
+    kani.H("c13_prefix_register_counter", "prefix layer, register_counter: name prefixed, labels and metadata unchanged, the handle update reaches the inner handle", B, 600, functions=FUNCS),
+    kani.H("c13_prefix_register_gauge", "prefix layer, register_gauge: likewise", B, 600, tier="thorough", functions=FUNCS),
+    kani.H("c13_prefix_register_histogram", "prefix layer, register_histogram: likewise", B, 600, tier="thorough", functions=FUNCS),
+    kani.H("c13_prefix_register", "prefix layer, register_*, the operation symbolic among the three", B, 1800, tier="thorough", functions=FUNCS),
     kani.H("c13_fanout_0", "fanout of width 0", B, 300, functions=FUNCS),
     kani.H("c13_fanout_1_describe", "fanout width 1, describe_*", B, 300, functions=FUNCS),
     kani.H("c13_fanout_2_describe", "fanout width 2, describe_*: every recorder once, in order", B, 400, functions=FUNCS),
